@@ -14,6 +14,7 @@ RULE = ("local LagrangeGrid p=1..4 / BSplineGrid p=1,3,5 (d<=2, levels 0..4, sub
         "HierarchizationLSG.hierarchize_poles_for_dim rebuilds the collocation matrix and checks M*surplus == pole values and full rank; "
         "every Lagrange basis object is evaluated at all its knots; derivatives vs central differences, integrals vs adaptive "
         "quadrature. distinct = digest(grid kind, p, levels/tree); non-trivial = >=5 points in some dimension")
+RULE += (" " + 'Global grids are built with boundary points, with zero boundary values, and with the modified boundary basis.')
 REQUIRED = ["collocation_postcondition", "collocation_full_rank", "interpolate_reproduces_nodal_values", "lagrange_cardinality",
             "polynomial_reproduction", "derivative_matches_differences", "basis_integral_matches_quadrature", "interpolate_grid_consistent"]
 MIN_NONTRIVIAL = {"quick": 300, "thorough": 5000}
